@@ -124,7 +124,7 @@ impl World {
             il_hash: 0x0fed_cba9_8765_4321,
             polls: 0,
             polls_since_progress: 0,
-            spin_limit: 3_000_000,
+            spin_limit: 300_000,
             spin: false,
             faults: BTreeMap::new(),
             probes: BTreeMap::new(),
